@@ -28,7 +28,7 @@ def generate(seed, tier, opts):
     d = Decider(seed, "pool")
     mode = d.weighted("mode", [("integration", opts.get("w_integration", 3)), ("runner-real", opts.get("w_runner_real", 2)), ("runner-stub", opts.get("w_runner_stub", 6)), ("fidelity", opts.get("w_fidelity", 0))])
     real = mode != "runner-stub"
-    th, op = cards.gen_cards(d, real=real, max_targets=3)
+    th, op = cards.gen_cards(d, real=real, max_targets=3, xgrid_max=8 if mode in ("integration", "fidelity") else 4)
     if real and mode != "runner-real":
         op["mugrid"] = op["mugrid"][:1]
     if mode == "runner-real" and th["order"][0] > 1:
